@@ -158,6 +158,7 @@ def run(ctx):
         u = rng.choice([6, 14, 30])
         calls = gen_history(rng, kind, u, rng.choice([10, 30, 60]), avoid0=False)
         had_bad = False
+        iand_probe = False      # an out-of-domain probe ran &= on both implementations (finding F17 then applies to the shapes)
         with envs["C"].sized(ml, mi), envs["Py"].sized(ml, mi):
             ts = {impl: envs[impl].new() for impl in ("C", "Py")}
             for i, c in enumerate(calls):
@@ -227,6 +228,8 @@ def run(ctx):
                         continue
                     had_bad = True
                     stats["out_of_domain_calls"] += 1
+                    if name == "iand":
+                        iand_probe = True
                     before = {impl: list(ts[impl]) if setlike else list(ts[impl].items()) for impl in ("C", "Py")}
                     r2 = {impl: call_raw(ts[impl], kind, name, a, b) for impl in ("C", "Py")}
                     after = {impl: list(ts[impl]) if setlike else list(ts[impl].items()) for impl in ("C", "Py")}
@@ -292,12 +295,12 @@ def run(ctx):
                     if cont["C"] != cont["Py"]:
                         bad = ("contents",)
                     elif kind in ("BTree", "TreeSet") and state_repr(ts["C"]) != state_repr(ts["Py"]):
-                        if not any(cc[0] == "iand" for cc in calls[:i + 1]):
+                        if not iand_probe and not any(cc[0] == "iand" for cc in calls[:i + 1]):
                             bad = ("shape",)
                         else:
                             bad = ("shape-after-iand",)
                     elif pickle.dumps(ts["C"], 2) != pickle.dumps(ts["Py"], 2):
-                        bad = (("pickle" if not any(cc[0] == "iand" for cc in calls[:i + 1]) else "pickle-after-iand") + (":fs" if fn == "fs" else ""),)
+                        bad = (("pickle" if not iand_probe and not any(cc[0] == "iand" for cc in calls[:i + 1]) else "pickle-after-iand") + (":fs" if fn == "fs" else ""),)
                 if bad:
                     try:
                         sizes_now = "C holds %d, Python holds %d entries: %r" % (len(ts["C"]), len(ts["Py"]), [repr(x)[:30] for x in list(ts["C"])[:4]])
